@@ -27,6 +27,12 @@ for (_b, _e) in ((0, 1), (0, 2), (0, 3), (1, 2), (1, 3), (2, 3)):
         bounds='3 frames held, any partition into source packets, <= 2 extensions per source packet on any of its frames, selection [%d,%d)' % (_b, _e)))
 GROUPS.append(dict(_SPLIT, name='out_range_split_nf4', unwind=10, timeout=3600, mem_gb=24, expect_canaries=2, tier='thorough', defines=['-DVERIF_NF=4', '-DVERIF_FIXED_ALLOC'],
     bounds='4 frames held, any partition into source packets, <= 2 extensions per source packet, any (begin,end)'))
+GROUPS.append(dict(name='write_extension_lacing', cls='F', tu='C16_write_payload.c', entry='h_write_payload', dfcc=False, canary='real', expect_canaries=1, unwind=7, timeout=900, cex={'self': True},
+    ignore=[(r'same object violation in &data\[.*\] - ext->data', 'OPUS_COPY type-check term 0*((dst)-(src)) on distinct buffers')],
+    functions=['write_extension', 'write_extension_payload', 'skip_extension', 'skip_extension_payload'],
+    trusted=['frame-only memcpy stub (payload content not modelled)'],
+    bounds='one long extension (id 32..127), every payload length 0..1100 (lacing loop <= 4 iterations, unwound completely), any buffer size <= 1200, last or not',
+    what='length lacing of a long extension as written by the generator primitive and as read back by the parser primitive'))
 
 META = {'enforced_elsewhere': ['skip_extension_payload'],
         'cex': {'tu': 'C16_roundtrip.c', 'entry': 'h_ext_arbitrary', 'unwind': 7, 'defines': ['-DVERIF_RAW=4', '-DVERIF_RAW_NF=2'], 'timeout': 1200}}
